@@ -5,6 +5,8 @@
 #   GEN  spec/gen/SampleGen      TLC-generated call sequences (configuration history + fetches)
 #   RND  seeded scripts          the transform/filter/repeat/size/format families of DESIGN.md 5 C08
 #   EXEC harness/drv_sample      one driver process per implementation chain (PIXMAN_DISABLE)
+#   WIDE the same samples through the floating point pipeline (DISJOINT_OVER on a8r8g8b8, rgba_float and
+#        a2r10g10b10 destinations) x filters x repeats x affine/projective x 5x4 / 1xN / Nx1 sources
 #   TV   spec/trace/SampleTrace  every recorded composite validated by TLC, each chain's trace on its own
 import json
 import os
@@ -25,7 +27,11 @@ CLAIMS = {
              "rejected). Scripts covering the size/format/transform/filter/repeat families (pixel-boundary "
              "translations by k/65536, negative source coordinates, w changing sign, REFLECT on size-1 images, even "
              "kernels) are executed through pixman_image_composite32 under PIXMAN_DISABLE chains reaching the general, "
-             "fast-path, SSE2 and SSSE3 fetchers; TLC validates every destination pixel of every recorded composite.",
+             "fast-path, SSE2 and SSSE3 fetchers; TLC validates every destination pixel of every recorded composite. "
+             "The same samples are also requested through the wide (floating point) pipeline (DISJOINT_OVER on "
+             "a8r8g8b8, rgba_float and a2r10g10b10 destinations) for every filter kind, repeat mode, affine and "
+             "projective transforms and 1xN / Nx1 sources, and judged against the same positions, neighbours and "
+             "repeat mapping with a one-step tolerance (bilinear: any weight that truncates to the 7-bit weight).",
         ref="5 C08"),
 }
 
@@ -253,6 +259,46 @@ def cover_exec(rng, name):
     return out
 
 
+WIDE_MODES = ["op", "float", "a2r10"]
+
+
+def wide_execs(rng, per_cell):
+    """the wide (floating point) pipeline, systematically: {DISJOINT_OVER on a8r8g8b8, rgba_float destination,
+    a2r10g10b10 destination} x {nearest, bilinear, small separable convolution} x the four repeat modes x
+    {affine, projective} x sources {5x4, 1xN, Nx1}; every request spans the image and more than one pixel of
+    its surroundings on all four sides, at fractional offsets"""
+    ex = []
+    k = 0
+    for (w, h) in ((5, 4), (1, 3), (4, 1)):
+        fmt = "a8r8g8b8" if (w, h) != (4, 1) else "x8r8g8b8"
+        pix = image_pixels(random.Random(1000 + w * 10 + h), fmt, w, h)
+        # distinct neighbours: force a ramp with large differences between adjacent columns / rows
+        pix = [((0x40 + 0x5b * i) % 256) << 24 | ((0x10 + 0x77 * i) % 256) << 16 | ((0xf0 - 0x63 * i) % 256) << 8 |
+               ((0x25 + 0x9d * i) % 256) for i in range(w * h)]
+        aff = [[[ONE, 0, -3 * ONE - ONE // 4], [0, ONE, -2 * ONE - ONE // 2], [0, 0, ONE]],
+               [[3 * ONE // 4, 0, -2 * ONE - 3 * ONE // 4], [0, 3 * ONE // 4, -ONE - ONE // 4], [0, 0, ONE]],
+               [[ONE // 2, -ONE // 4, -ONE - ONE // 2], [ONE // 4, ONE // 2, -3 * ONE - 3 * ONE // 4], [0, 0, ONE]],
+               [[ONE, 0, ONE + ONE // 2], [0, ONE, 3 * ONE // 4], [0, 0, ONE]],
+               [[-ONE, 0, (w + 2) * ONE + ONE // 8], [0, 3 * ONE // 2, -2 * ONE - ONE // 3], [0, 0, ONE]]]
+        proj = [[[ONE, 0, -3 * ONE - ONE // 4], [0, ONE, -2 * ONE - ONE // 2], [ONE // 64, 0, ONE]],
+                [[2 * ONE, 0, -6 * ONE - ONE // 2], [0, 2 * ONE, -5 * ONE], [0, 0, 2 * ONE]],
+                [[-ONE, 0, 3 * ONE + ONE // 4], [0, -ONE, 2 * ONE + ONE // 2], [0, -ONE // 64, -ONE]]]
+        for mode in WIDE_MODES:
+            for flt in ("F nearest 0", "F bilinear 0", "S 2 2 0 0 65536 65536 1 1"):
+                for rep in REPEATS:
+                    out = ["R wide%d" % k, "I %s %d %d %s" % (fmt, w, h, " ".join(map(str, pix))), flt, "P " + rep]
+                    k += 1
+                    mats = rng.sample(aff, min(per_cell, len(aff))) + rng.sample(proj, min(max(1, per_cell // 2), len(proj)))
+                    for m in mats:
+                        out.append("T " + " ".join(str(v) for r in m for v in r))
+                        n = w + 8
+                        rows = h + 6
+                        role = "mask" if rng.random() < 0.15 else "src"
+                        out.append("W %s %s %d %d %d %d" % (mode, role, rng.choice([-1, 0]), rng.choice([-1, 0]), n, rows))
+                    ex.append(out)
+    return ex
+
+
 def filter_line(rng, kind, kers):
     if kind == "nearest":
         return "F nearest 0"
@@ -313,6 +359,11 @@ def directed_execs():
                "F convolution 11 196608 196608 0 -65536 0 -65536 327680 -65536 0 -65536 0", "P none", "C src -1 -1 5 4 0",
                "P pad", "C src -1 -1 5 4 0", "P normal", "C src -2 -1 7 3 0", "P reflect", "C src -2 -1 7 3 0",
                "S 5 5 0 0 65536 65536 1 1", "C src -2 -1 7 3 0", "P none", "C src -2 -1 7 3 0"])
+    # the same through the wide (floating point) pipeline
+    ex.append(["R dir_wide_conv_negative", "I a8r8g8b8 3 2 4294967295 0 4294967295 0 4294967295 0", "T 65536 0 1 0 65536 0 0 0 65536",
+               "F convolution 11 196608 196608 0 -65536 0 -65536 327680 -65536 0 -65536 0", "P none", "W op src -1 -1 5 4",
+               "W float src -1 -1 5 4", "P pad", "W a2r10 src -1 -1 5 4", "P reflect", "W op src -2 -1 7 3",
+               "S 5 5 0 0 65536 65536 1 1", "W float src -2 -1 7 3", "P none", "W op src -2 -1 7 3"])
     # 1x1 images: REFLECT / NORMAL / PAD on size-1 axes; a kernel whose coefficients sum to 3
     ex.append(["R dir_size1", "I a8r8g8b8 1 1 2155888736", "P reflect", "F bilinear 0",
                "T 43691 0 1 0 65536 -1 0 0 65536", "C src -3 -2 7 3 0", "P normal", "C src -3 -2 7 3 0",
@@ -367,11 +418,14 @@ def behaviour_script(beh, name):
 def count_events(chk, tracefile, chain):
     cfg = None
     for line in open(tracefile):
-        if line.startswith('{"e":"Fetch"'):
+        if line.startswith('{"e":"Fetch"') or line.startswith('{"e":"FetchWide"'):
             ev = json.loads(line)
+            if ev["e"] == "FetchWide":
+                wk = chk.extra.setdefault("wide_rows_by_mode", {})
+                wk[ev["mode"]] = wk.get(ev["mode"], 0) + ev["rows"]
             chk.evaluations += ev["rows"]
             chk.extra["pixels"] = chk.extra.get("pixels", 0) + ev["rows"] * ev["n"]
-            key = (cfg, ev["x0"], ev["y0"], ev["n"], ev["rows"], ev["role"])
+            key = (cfg, ev["x0"], ev["y0"], ev["n"], ev["rows"], ev["role"], ev.get("mode", "narrow"))
             chk.distinct_keys.add(hash(key))
             by = chk.extra.setdefault("rows_by_chain", {})
             by[chain or "(all enabled)"] = by.get(chain or "(all enabled)", 0) + ev["rows"]
@@ -484,6 +538,27 @@ def run(prop, args):
             count_events(chk, tr, chain)
     chk.sample({"script_lines": [ln[:300] for ln in execs[-1][:7]]})
 
+    # 3b. the wide (floating point) pipeline: systematic cross product (see wide_execs), general implementation
+    # with and without the SIMD / fast-path layers above it
+    wex = wide_execs(rng, 2 if quick else 5)
+    execs += wex
+    chk.extra["wide_executions"] = len(wex)
+    wchains = ["", "fast mmx sse2 ssse3"] if quick else CHAINS
+    wnb = 2 if quick else 3
+    for bi in range(wnb):
+        part = wex[bi::wnb]
+        sp = os.path.join(wd, "w%d.script" % bi)
+        with open(sp, "w") as f:
+            for e in part:
+                f.write("\n".join(e) + "\n")
+        for chain in wchains:
+            tr = os.path.join(wd, "w%d.c%d.ndjson" % (bi, CHAINS.index(chain)))
+            execute(exe, sp, tr, chain)
+            traces.append(tr)
+            chain_of[tr] = chain
+            count_events(chk, tr, chain)
+    chk.sample({"wide_script_lines": [ln[:200] for ln in wex[len(wex) // 2][:6]]})
+
     # 4. trace validation (each chain's trace on its own)
     vf.validate_batches(chk, "SampleTrace", traces, cfg=cfg, parallel=8, timeout=2400)
     for v in chk.violations:
@@ -511,6 +586,9 @@ def run(prop, args):
                         "(as a component-alpha mask: white IN mask = mask)",
                         "projective transforms: any position within 2/65536 of the exact rational quotient is "
                         "admissible (the statement fixes no rounding for the homogeneous divide)",
+                        "wide (floating point) pipeline: same positions, neighbours and repeat mapping; bilinear "
+                        "weights may keep more than 7 bits of the fraction (any weight truncating to the 7-bit "
+                        "weight); tolerance one step of the coarser of 8 bits and the destination depth",
                         "requests with a pixel centre (rectangle expanded by one pixel) mapped beyond +-16000 "
                         "pixels or with w = 0 are not judged"]
     return chk.finish()
